@@ -415,7 +415,7 @@ def write_evidence(pid, tier, seed, prop, results, total, discharged, wall, nvio
         "samples": samples[:24],
         "jobs": jobs,
         "bounded_parts": bounded,
-        "exhaustive": bool(prop.get("exhaustive", False)) and not bounded,
+        "exhaustive": bool(prop.get("exhaustive", False)) and not bounded and tier == "thorough",
         "native_support": pre_msgs,
         "explanation": prop.get("explanation", ""),
         "known_findings_hit": ["%s: %s" % (k["prop"], k["text"]) for (k, _, _) in known_hits],
